@@ -557,7 +557,7 @@ class Fortran90OperatorsRule(GenericRule):  # Coding standards 4.15
         mapper = {}
         for report in rule_report.problem_reports:
             new_expr = report.location
-            new_expr.update_metadata({'source': None})
+            new_expr._update(source=None)
             mapper[report.location] = new_expr
         return mapper
 
